@@ -201,6 +201,76 @@ def read_seed_index():
     return {"fresh": fresh[0], "extend": ext[0], "fingerprint": fp}
 
 
+_NUM_NAMES = {"batch_count": "b", "sim_count": "c", "simulation": "k"}
+
+
+def _num_to_lean(node):
+    if isinstance(node, ast.Name) and node.id in _NUM_NAMES:
+        return _NUM_NAMES[node.id]
+    if isinstance(node, ast.Constant) and isinstance(node.value, int) and not isinstance(node.value, bool) \
+            and node.value >= 0:
+        return str(node.value)
+    if isinstance(node, ast.BinOp) and type(node.op) in _IDX_OPS:
+        return f"({_num_to_lean(node.left)} {_IDX_OPS[type(node.op)]} {_num_to_lean(node.right)})"
+    raise ExtractError(f"simulation_manager.py:{getattr(node, 'lineno', '?')}: simulation number expression "
+                       f"{ast.unparse(node)!r} is outside the translatable subset")
+
+
+def read_sim_number():
+    """the expression assigned to `simulation_number` inside the batch loops of SimulationManager
+    (_run_simulations_debug and _run_simulation_multiprocessing)"""
+    path = os.path.join(shim.REPO_SRC, "simulation", "simulation_manager.py")
+    tree = ast.parse(open(path).read())
+    cls = next((n for n in tree.body if isinstance(n, ast.ClassDef) and n.name == "SimulationManager"), None)
+    if cls is None:
+        raise ExtractError("simulation_manager.py: class SimulationManager not found")
+    out = {}
+    for meth, key in (("_run_simulations_debug", "debug"), ("_run_simulation_multiprocessing", "pool")):
+        fn = next((n for n in cls.body if isinstance(n, ast.FunctionDef) and n.name == meth), None)
+        if fn is None:
+            raise ExtractError(f"simulation_manager.py: SimulationManager.{meth} not found")
+        found = []
+        for outer in ast.walk(fn):
+            if isinstance(outer, ast.For) and isinstance(outer.iter, ast.Call) and isinstance(outer.iter.func, ast.Name) \
+                    and outer.iter.func.id == "enumerate" and isinstance(outer.target, ast.Tuple) \
+                    and [getattr(e, "id", None) for e in outer.target.elts] == ["batch_count", "sim_count"]:
+                for inner in ast.walk(outer):
+                    if isinstance(inner, ast.For) and isinstance(inner.target, ast.Name) and inner.target.id == "simulation" \
+                            and ast.unparse(inner.iter) == "range(sim_count)":
+                        for st in ast.walk(inner):
+                            tgt = st.target if isinstance(st, ast.AnnAssign) else \
+                                (st.targets[0] if isinstance(st, ast.Assign) and len(st.targets) == 1 else None)
+                            if isinstance(tgt, ast.Name) and tgt.id == "simulation_number" and st.value is not None:
+                                found.append(st)
+        if len(found) != 1:
+            raise ExtractError(f"simulation_manager.py: {meth}: expected one assignment of simulation_number inside "
+                               f"`for batch_count, sim_count in enumerate(...)` / `for simulation in range(sim_count)`, "
+                               f"found {len(found)}")
+        out[key] = {"line": found[0].lineno, "src": ast.unparse(found[0].value), "lean": _num_to_lean(found[0].value)}
+    out["fingerprint"] = hashlib.sha256("".join(
+        ast.dump(n) for n in cls.body if isinstance(n, ast.FunctionDef)
+        and n.name in ("run_simulations", "_run_simulations_debug", "_run_simulation_multiprocessing")).encode()).hexdigest()[:16]
+    return out
+
+
+def render_sim_number(sn) -> str:
+    return f"""/-
+GENERATED by harness/extract/units.py from /repo/LDAR_Sim/src/simulation/simulation_manager.py — rewritten on
+every run of ./check C16, do not edit.  The expression assigned to `simulation_number` in
+_run_simulations_debug (line {sn['debug']['line']}: `{sn['debug']['src']}`) and in
+_run_simulation_multiprocessing (line {sn['pool']['line']}: `{sn['pool']['src']}`);
+b = batch_count, c = sim_count, k = simulation.   fingerprint of the three run methods: {sn['fingerprint']}
+-/
+set_option linter.unusedVariables false
+namespace LdarModel.Generated.SimNumber
+
+def simNumberDebug (b c k : Nat) : Nat := {sn['debug']['lean']}
+def simNumberPool (b c k : Nat) : Nat := {sn['pool']['lean']}
+
+end LdarModel.Generated.SimNumber
+"""
+
+
 # ------------------------------------------------------------------------------------------------
 def lean_rat(x: Fraction) -> str:
     n, d = x.numerator, x.denominator
